@@ -128,7 +128,8 @@ AL = sp.Function("AL")
 _ENUMV = {}        # canonical text of an enumerator -> its integer value
 _COND_PARTS = {}   # canonical text "(a != b)" -> (a, b)
 _GV_REG = {}       # canonical text of a guarded value -> its decision tree (norm_c05.gv_*)
-_EST_REG = {}      # canonical text of a Pack::estimate_size call -> dict(count, ptype)
+_EST_REG = {}
+_FIELD_SLOT = {}   # field name of a header struct -> slot number (shared by writer and reader)      # canonical text of a Pack::estimate_size call -> dict(count, ptype)
 
 
 # -------------------------------------------------------------------------------------------------
@@ -292,6 +293,8 @@ class LayoutFn:
 
     def const_local(self, d):
         v = self.decl.get(d)
+        if d in getattr(self, "arrays", ()) or d in getattr(self, "records", ()):
+            return False
         return (v is not None and v.get("init") is not None and self.assigned.get(d, 0) == 0
                 and d not in self.loopvars and d not in self.cursors and d not in self.views and d not in self.accs)
 
@@ -334,6 +337,23 @@ class LayoutFn:
                 return {"unit": ov["unit"], "idx": {"k": "Bin", "op": "+", "lhs": n["idx"], "rhs": ov["idx"], "l": n.get("l")}, "addr": addr, "node": n}
         if n.get("k") == "OpCall" and n.get("op") == "[]" and len(n.get("a", [])) == 2 and self.is_root(n["a"][0]):
             return {"unit": "char", "idx": n["a"][1], "addr": addr, "node": n}
+        records = getattr(self, "records", None)
+        if records and n.get("k") == "Member" and n.get("b") is not None and strip_cast(n["b"]).get("k") == "Ref" and strip_cast(n["b"]).get("d") in records:
+            # a header struct: every field is a named slot
+            slot = _FIELD_SLOT.setdefault(n.get("n"), 100 + len(_FIELD_SLOT))
+            return {"unit": self.fn.ntype(n) or "field", "idx": {"k": "Int", "v": str(slot)}, "addr": addr, "node": n}
+        arrays = getattr(self, "arrays", None)
+        if arrays:
+            # a typed header object: std::array<T, N> / T[N] subscripted directly
+            b_, i_ = None, None
+            if n.get("k") == "OpCall" and n.get("op") == "[]" and len(n.get("a", [])) == 2:
+                b_, i_ = strip_cast(n["a"][0]), n["a"][1]
+            elif n.get("k") == "MCall" and n.get("n") == "at" and len(n.get("a", [])) == 1 and n.get("obj") is not None:
+                b_, i_ = strip_cast(n["obj"]), n["a"][0]
+            elif n.get("k") == "Index":
+                b_, i_ = strip_cast(n["b"]), n["idx"]
+            if b_ is not None and b_.get("k") == "Ref" and b_.get("d") in arrays:
+                return {"unit": arrays[b_["d"]][0], "idx": i_, "addr": addr, "node": n}
         return None
 
     def split_idx(self, idx, loopvar):
@@ -411,18 +431,24 @@ class LayoutFn:
                     pass
             return n.get("qn") or n.get("n")
         if k == "Member":
+            if getattr(self, "records", None):
+                a = self.access(n, resolve=False)
+                if a is not None and not a["addr"] and a["node"] is n:
+                    kk = int(a["idx"]["v"])
+                    return self.hsub.get(kk, "H%d?" % kk) if self.side == "r" else "H%d" % kk
             b = n.get("b")
             if b is None or strip_cast(b).get("k") == "This":
                 return "this." + n["n"]
             return c(b) + "." + n["n"]
-        if k == "Index":
+        if k == "Index" or (k in ("OpCall", "MCall") and getattr(self, "arrays", None)):
             a = self.access(n, resolve=False)
-            if a is not None and strip_cast(a["idx"]).get("k") == "Int":
+            if a is not None and not a["addr"] and a["node"] is n and strip_cast(a["idx"]).get("k") == "Int":
                 kk = int(strip_cast(a["idx"])["v"])
                 if self.side == "r":
                     return self.hsub.get(kk, "H%d?" % kk)
                 return "H%d" % kk
-            return "%s[%s]" % (c(n["b"]), c(n["idx"]))
+            if k == "Index":
+                return "%s[%s]" % (c(n["b"]), c(n["idx"]))
         if k == "MCall":
             nm = n.get("n") or n.get("callee", "").rsplit("::", 1)[-1]
             if n.get("a") and (n.get("obj") is None or strip_cast(n["obj"]).get("k") == "This"):
@@ -1257,8 +1283,8 @@ def header_beliefs(R):
     par = parent_map(fn)
     out = {}
     for n in fn.nodes():
-        a = R.access(n, resolve=False) if n.get("k") == "Index" else None
-        if a is None or strip_cast(a["idx"]).get("k") != "Int":
+        a = R.access(n, resolve=False) if (n.get("k") == "Index" or (getattr(R, "arrays", None) and n.get("k") in ("OpCall", "MCall")) or (getattr(R, "records", None) and n.get("k") == "Member")) else None
+        if a is None or a["addr"] or a["node"] is not n or strip_cast(a["idx"]).get("k") != "Int":
             continue
         k = int(strip_cast(a["idx"])["v"])
         p = par.get(id(n))
@@ -2645,10 +2671,61 @@ def reader_size_tokens(f, stmts, want_vars=False):
                 decl[v["d"]] = v
     endvars, ntok, tokvar, numvar = set(), 0, {}, {}
     roles = {}
+    facts = f.facts
+    popper_cache = {}
+
+    def popper(call):
+        """`call` invokes a local lambda / a helper that strips exactly one blank-separated token off the front of the line and returns
+        the number parsed from it (the de-duplicated form of the find / erase / atol block) -> True"""
+        c = strip_cast(call)
+        while c is not None and c.get("k") in ("Construct", "TempObj") and len(c.get("a", [])) == 1:
+            c = strip_cast(c["a"][0])
+        if c is None:
+            return False
+        body = None
+        if c.get("k") == "OpCall" and c.get("op") == "()" and c.get("a"):
+            lam = through_consts(f, c["a"][0])
+            if lam is not None and lam.get("k") == "Lambda":
+                body = lam.get("body")
+        elif c.get("k") in ("Call", "MCall"):
+            g = norm_c05.callee_function(facts, c)
+            if g is not None and g.file == f.file:
+                body = g.body
+        if body is None:
+            return False
+        key = id(body)
+        if key not in popper_cache:
+            ev_, tv_ = set(), {}
+            n_erase, ok = 0, False
+            for s2 in flat_statements(stmts_of(body)):
+                k2 = s2.get("k")
+                if k2 == "Decl":
+                    for v2 in s2["vars"]:
+                        r2 = strip_cast(v2.get("init")) if v2.get("init") is not None else None
+                        if r2 is not None and r2.get("k") == "MCall" and r2.get("n") == "find_first_of":
+                            ev_.add(v2["d"])
+                        if r2 is not None and r2.get("k") in ("Construct", "TempObj") and len(r2.get("a", [])) == 3 and strip_cast(r2["a"][2]).get("d") in ev_ and render(strip_cast(r2["a"][1])) == "0":
+                            tv_[v2["d"]] = n_erase
+                elif k2 == "MCall" and s2.get("n") == "erase" and len(s2.get("a", [])) == 2 and strip_cast(s2["a"][1]).get("d") in ev_:
+                    n_erase += 1
+                elif k2 == "Return" and s2.get("e") is not None:
+                    for c2 in walk(s2["e"]):
+                        if c2.get("k") == "Call" and c2.get("callee") in ("atol", "atof", "atoi", "strtol", "strtod") and c2.get("a"):
+                            a0 = strip_cast(c2["a"][0])
+                            if a0.get("k") == "MCall" and a0.get("n") == "c_str" and tv_.get(strip_cast(a0["obj"]).get("d")) == 0:
+                                ok = True
+                elif k2 in ("While", "For", "Do", "ForRange", "If", "Switch"):
+                    n_erase = 99
+            popper_cache[key] = ok and n_erase == 1
+        return popper_cache[key]
 
     def def_of(d, rhs):
-        nonlocal endvars
+        nonlocal endvars, ntok
         r = strip_cast(rhs) if rhs is not None else None
+        if r is not None and popper(r):
+            numvar[d] = ntok
+            ntok += 1
+            return
         if r is not None and r.get("k") == "MCall" and r.get("n") == "find_first_of":
             endvars.add(d)
         else:
@@ -2770,9 +2847,19 @@ def check_linearisation(ck, facts):
                         if quo[qd][0] != rem[rdv][0]:
                             continue
                         slow, fast = norm_dim(c["pn"][qi - off]), norm_dim(c["pn"][ri - off])
-                        Eq, Er = through_consts(fr, quo[qd][1]), through_consts(fr, rem[rdv][1])
-                        rq = var_role.get(Eq.get("d"))
-                        rr = var_role.get(Er.get("d"))
+                        def parsed_var(x):
+                            """follow constant locals until a variable parsed from the size line is reached"""
+                            x = strip_cast(x)
+                            for _ in range(8):
+                                while x is not None and x.get("k") in ("Construct", "TempObj") and len(x.get("a", [])) == 1:
+                                    x = strip_cast(x["a"][0])
+                                if x is None or x.get("k") != "Ref" or x.get("d") in var_role or x.get("d") not in decl:
+                                    break
+                                x = strip_cast(decl[x["d"]])
+                            return x
+                        Eq, Er = parsed_var(quo[qd][1]), parsed_var(rem[rdv][1])
+                        rq = var_role.get(Eq.get("d")) if Eq is not None else None
+                        rr = var_role.get(Er.get("d")) if Er is not None else None
                         key = "%s/%s/counter-split" % (sc, mode)
                         if rq is None or rr is None:
                             ck.incomplete("E2.linearisation", "%s: role of the divisor '%s' not established from the size line" % (key, render(Er)))
@@ -2876,7 +2963,7 @@ def writer_size_lines(f, stmts, raw=False):
                 visit(stmts_of(s.get("then")), in_loop)
                 visit(stmts_of(s.get("else")), in_loop)
             elif k == "OpCall" and s.get("op") == "<<" and not in_loop:
-                items = [x for x in flatten_chain(s)[1:] if strip_cast(x).get("k") != "Str"]
+                items = [x for x in flatten_chain(s)[1:] if strip_cast(x).get("k") not in ("Str", "Char")]
                 rs = [role(x) for x in items]
                 if rs and all(r is not None for r in rs) and any(r[0] == "role" for r in rs):
                     out.append((items if raw else rs, s.get("l")))
@@ -3134,6 +3221,17 @@ def is_one_node(n):
     return n is not None and n.get("k") == "Int" and int(n["v"]) == 1
 
 
+_ENTRY_WANT = {}
+
+
+def entry_inline_for(fn):
+    def want(call, g):
+        if g.name in ("write_out", "read_from", "_serialize", "_deserialize", "convert", "clone", "assign") or g.file != fn.file:
+            return False
+        return (not g.cls) or g.cls == fn.cls
+    return want
+
+
 def check_entry_coordinates(ck, facts):
     """coordinate text modes: the (row, column) an entry line prints is the scalar position of the value it prints, in the coordinate
     system the size line of the same writer announces: row = Fr * <row index over the native row extent> + <offset over [0, Fr)> + 1,
@@ -3147,7 +3245,8 @@ def check_entry_coordinates(ck, facts):
         f0 = wr[cls]
         if (f0.file, f0.line, strip_targs(cls)) in seen and False:
             continue
-        fw = norm_c05.normalized(facts, f0, inline=None, algorithms=False, loops=True)
+        # helpers of the class the writer may print its lines through are inlined; while / != / post-increment loops canonicalised
+        fw = norm_c05.normalized(facts, f0, inline=_ENTRY_WANT.setdefault(id(f0), entry_inline_for(f0)), algorithms=False, loops=True)
         groups = mode_groups(fw)
         if groups is None:
             continue
@@ -3162,6 +3261,11 @@ def check_entry_coordinates(ck, facts):
             par = parent_map(fw)
             lines = writer_size_lines(fw, st, raw=True)
             CE = CoordEval(facts, fw)
+            # execution order inside the case group = position in its statement tree (line numbers say nothing once a helper is inlined)
+            order = {}
+            for s_ in st:
+                for n in walk(s_):
+                    order[id(n)] = len(order)
             # entry lines: << chains inside loops with at least three streamed values
             chains, inner = [], set()
             for s_ in st:
@@ -3175,7 +3279,7 @@ def check_entry_coordinates(ck, facts):
                             x = par[id(x)]
                             if x.get("k") in ("For", "While", "Do", "ForRange"):
                                 in_loop = True
-                        items = [it for it in flatten_chain(n)[1:] if strip_cast(it).get("k") != "Str"]
+                        items = [it for it in flatten_chain(n)[1:] if strip_cast(it).get("k") not in ("Str", "Char")]
                         if in_loop and len(items) >= 3:
                             chains.append((n, items))
             if not chains:
@@ -3184,7 +3288,7 @@ def check_entry_coordinates(ck, facts):
             for li, (chain, items) in enumerate(chains):
                 key = "%s/%s/line%d" % (sc, mode, li)
                 # the size line in force for this entry line: the closest one in front of it (same branch)
-                cand = [(its, l_) for its, l_ in lines if (l_ or 0) <= (chain.get("l") or 0) and len(its) >= 2]
+                cand = [(its, l_) for its, l_ in lines if len(its) >= 2 and order.get(id(its[0]), 1 << 30) < order.get(id(chain), -1)]
                 if not cand:
                     ck.incomplete(R, "%s: no size line in front of the entry line" % key)
                     continue
@@ -3249,6 +3353,12 @@ def check_entry_coordinates(ck, facts):
                                 iinfo["name"], iinfo["extent"], ic, F)))
                             offs[dim] = iinfo["d"]
                     verdicts.append((int(const) == 1, "1-based: constant %s" % sp.sstr(const)))
+                def expand_walk(root, depth=0):
+                    """the expression with constant locals replaced by what they were initialised with"""
+                    for y_ in walk(root):
+                        yield y_
+                        if y_.get("k") == "Ref" and y_.get("dk") == "local" and y_.get("d") in CE.consts and y_.get("d") not in CE.loopvar and depth < 6:
+                            yield from expand_walk(CE.consts[y_["d"]], depth + 1)
                 # the stored column index and the value belong to the non-zero range of the row whose index is printed
                 rowvar = None
                 for sy in forms[0].free_symbols:
@@ -3264,7 +3374,7 @@ def check_entry_coordinates(ck, facts):
                     else:
                         unknown.append("position '%s' of the stored column index is not a loop variable over the non-zeros of the row" % sp.sstr(nzidx))
                 if nzidx is not None:
-                    vnodes = list(walk(CE.resolve(items[2]) if strip_cast(items[2]).get("k") == "Ref" else items[2]))
+                    vnodes = list(expand_walk(items[2]))
                     for y in list(vnodes):
                         # an element of a vector filled by one push_back stands for the pushed expression
                         o_ = None
@@ -3284,7 +3394,8 @@ def check_entry_coordinates(ck, facts):
                             verdicts.append((sp.expand(vi - nzidx) == 0, "value read at position %s, column index at position %s of the non-zero arrays" % (sp.sstr(vi), sp.sstr(nzidx))))
                 # the value printed: block[row offset][column offset] of the same non-zero
                 vsub = []
-                for y in walk(items[2]):
+
+                for y in expand_walk(items[2]):
                     if y.get("k") == "OpCall" and y.get("op") == "[]" and len(y.get("a", [])) == 2 and re.match(r"^FEAT::Tiny::(Matrix|Vector)<", y.get("ccls") or ""):
                         vsub.append(y)
                 if ("row" in offs or "column" in offs):
@@ -4273,6 +4384,28 @@ class FileSeq(LayoutFn):
         self.guards = []
         self.peer = peer or []     # reader: the writer's events (words read from the file are bound to what the writer put there)
         self.files = set()
+        # typed header objects: std::array<T, N> / T[N] locals
+        self.arrays = {}
+        for d, v in self.decl.items():
+            t = re.sub(r"^const\s+", "", fn.type(v.get("t")) or "")
+            m = re.match(r"^std::array<(.+),\s*(\d+)(?:U|UL|ul|u)?>$", t) or re.match(r"^(.+?)\s*\[(\d+)\]$", t)
+            if m:
+                self.arrays[d] = (m.group(1).strip(), int(m.group(2)))
+        # header structs: locals of class type whose address is handed to a transfer
+        self.records = {}
+        for x in fn.nodes():
+            args = None
+            if x.get("k") == "MCall" and x.get("n") in ("write", "read") and len(x.get("a", [])) == 2:
+                args = x["a"][:1]
+            elif x.get("k") == "Call" and x.get("callee") in FILE_XFER and len(x.get("a", [])) >= 3:
+                args = x["a"][1:2]
+            for a_ in args or []:
+                p_ = strip_cast(a_)
+                if p_ is not None and p_.get("k") == "Un" and p_.get("op") == "&" and strip_cast(p_["e"]).get("k") == "Ref" and strip_cast(p_["e"]).get("dk") == "local":
+                    d_ = strip_cast(p_["e"])["d"]
+                    t_ = re.sub(r"^const\s+", "", fn.type(self.decl.get(d_, {}).get("t")) or "")
+                    if d_ in self.decl and t_ not in INT_WIDTH and not re.match(r"^(unsigned |signed )?(char|short|int|long|long long)$|^std::|^(float|double|bool)$", t_) and d_ not in self.arrays:
+                        self.records[d_] = t_
         for d, v in self.decl.items():
             t = fn.type(v.get("t")) or ""
             if re.search(r"\b(std::)?(basic_)?[io]?fstream\b|^std::(ofstream|ifstream|fstream)$|^MPI_File$|ompi_file_t", t):
@@ -4287,8 +4420,16 @@ class FileSeq(LayoutFn):
 
     def canon(self, n, lv=None):
         n0 = strip_cast(n)
+        # integral constants of the translation unit and sizeof are numbers here (byte counts are compared as values)
+        if n0 is not None and n0.get("k") == "Ref" and n0.get("dk") in ("global", "smember") and n0.get("v") is not None and re.match(r"^-?\d+$", str(n0["v"])) \
+                and re.search(r"(size_t|int|long|short|uint\d+_t|streamsize|Index)\b", self.fn.ntype(n0) or ""):
+            return str(int(n0["v"]))
+        if n0 is not None and n0.get("k") == "SizeOf" and n0.get("v") and re.match(r"^\d+$", str(n0["v"])):
+            return str(int(n0["v"]))
         if n0 is not None and n0.get("k") == "MCall" and n0.get("n") == "size" and not n0.get("a") and n0.get("obj") is not None:
             o = strip_cast(n0["obj"])
+            if o.get("k") == "Ref" and o.get("d") in self.arrays:
+                return str(self.arrays[o["d"]][1])
             if o.get("k") == "Ref" and o.get("d") in self.roots and o.get("dk") == "local" and self.assigned.get(o["d"], 0) == 0:
                 # size of the local header vector: the extent it is constructed with
                 ini = self.decl.get(o["d"], {}).get("init")
@@ -4308,6 +4449,14 @@ class FileSeq(LayoutFn):
         """canonical byte count (the size of a vector that was resized in this routine is the size it was given)"""
         return self.canon(n)
 
+    def sym(self, n, st, lv=None):
+        n0 = strip_cast(n)
+        if n0 is not None and n0.get("k") in ("Ref", "SizeOf"):
+            t = self.canon(n0, lv)
+            if re.match(r"^-?\d+$", t):
+                return sp.Integer(int(t))
+        return LayoutFn.sym(self, n, st, lv)
+
     def what_of(self, ptr):
         """the object a transfer moves: ('header', root) / ('param', index) / ('word', decl) / None"""
         p = through_consts(self.fn, ptr)
@@ -4317,9 +4466,20 @@ class FileSeq(LayoutFn):
             o = strip_cast(p.get("obj"))
             if o.get("k") == "Ref" and o.get("dk") == "param":
                 return ("param", self.params.get(o["d"], -1), o.get("n"))
-            if o.get("k") == "Ref" and o.get("d") in self.roots:
+            if o.get("k") == "Ref" and (o.get("d") in self.roots or o.get("d") in self.arrays):
                 return ("header", o["d"], o.get("n"))
+        if p.get("k") == "Ref" and p.get("d") in self.arrays:
+            return ("header", p["d"], p.get("n"))
+        if p.get("k") == "Un" and p.get("op") == "&":
+            a_ = self.access(p)
+            if a_ is not None and is_zero(a_["idx"]) and strip_cast(a_["node"]).get("k") in ("OpCall", "Index", "MCall"):
+                b_ = a_["node"]
+                b0 = strip_cast(b_["a"][0] if b_.get("k") == "OpCall" else b_.get("b") if b_.get("k") == "Index" else b_.get("obj"))
+                if b0 is not None and b0.get("k") == "Ref" and b0.get("d") in self.arrays:
+                    return ("header", b0["d"], b0.get("n"))
         if p.get("k") == "Un" and p.get("op") == "&" and strip_cast(p["e"]).get("k") == "Ref" and strip_cast(p["e"]).get("dk") == "local":
+            if strip_cast(p["e"])["d"] in self.records:
+                return ("header", strip_cast(p["e"])["d"], strip_cast(p["e"]).get("n"))
             return ("word", strip_cast(p["e"])["d"], strip_cast(p["e"]).get("n"))
         return None
 
@@ -4516,10 +4676,23 @@ def check_combined_files(ck, facts, variant):
                     diffs.append("%s bytes are moved through the %d-byte variable '%s'" % (e_["count"], wd, e_["what"][2]))
         if sorted(a["guards"]) != sorted(b["guards"]):
             diffs.append("condition: writer [%s] / reader [%s]" % ("; ".join("%s%s" % ("" if p_ else "not ", t) for t, p_ in a["guards"]), "; ".join("%s%s" % ("" if p_ else "not ", t) for t, p_ in b["guards"])))
+        opaque = [t_ for t_ in (a["count"], b["count"]) if re.search(r"local\{|var\{|H\d+\?|\.[A-Za-z_]\w*\b(?!\()", re.sub(r"\$[pr]\d+\.\w+\(\)", "", t_)) and not re.match(r"^#", t_)]
+        if diffs and opaque and a["count"] != b["count"]:
+            ck.incomplete(R, "%s: the byte count '%s' is taken from an object the analysis has no value for (header kept in an unmodelled form?)  [%s | %s]" % (key, opaque[0], xfer_text(a), xfer_text(b)))
+            break
         ck.ob(R, key, not diffs, ("; ".join(diffs) + "  [%s | %s]" % (xfer_text(a), xfer_text(b)) + " (first divergence; later blocks are not compared)") if diffs else xfer_text(a) + " = " + xfer_text(b),
               r.file, b["line"], sample={"writer": xfer_text(a), "reader": xfer_text(b)})
         if diffs:
             break
+    # the header block that is written covers every header word that is stored
+    plain = [k_ for k_ in hdr if k_ < 100]
+    hev = [e for e in we if e["what"][0] == "header"]
+    if plain and len(hev) == 1 and re.match(r"^\d+$", hev[0]["count"]):
+        wd = INT_WIDTH.get(hdr[max(plain)]["unit"])
+        if wd is not None:
+            need = (max(plain) + 1) * wd
+            ck.ob(R, "%s/header-extent" % variant, int(hev[0]["count"]) >= need, "header block of %s bytes; header words 0..%d of %d bytes each are stored (%d bytes)" % (
+                hev[0]["count"], max(plain), wd, need), w.file, hev[0]["line"], trivial=True)
     # header words the reader requires / uses
     bel = header_beliefs(Rd)
     for k_ in sorted(bel):
@@ -4839,9 +5012,13 @@ def arrays_allocated_together(facts, cls):
     parameters)?  Then a null test of any array accessor speaks for all arrays of the object."""
     key = (id(facts), cls)
     if key not in _TOGETHER:
-        a = sorted((c.full, c.line, sorted(sl.items())) for c, sl, _ in unallocated_states(facts, cls, SLOT_VECTORS[0]))
-        b = sorted((c.full, c.line, sorted(sl.items())) for c, sl, _ in unallocated_states(facts, cls, SLOT_VECTORS[1]))
-        _TOGETHER[key] = bool(a) and a == b
+        sa, sb = unallocated_states(facts, cls, SLOT_VECTORS[0]), unallocated_states(facts, cls, SLOT_VECTORS[1])
+        if any(sl is None for _, sl, _ in sa + sb):
+            _TOGETHER[key] = False
+        else:
+            a = sorted((c.full, c.line, sorted(sl.items())) for c, sl, _ in sa)
+            b = sorted((c.full, c.line, sorted(sl.items())) for c, sl, _ in sb)
+            _TOGETHER[key] = bool(a) and a == b
     return _TOGETHER[key]
 
 
@@ -4977,6 +5154,87 @@ def scalar_slot_of(facts, callee, depth=0):
     return ks.pop() if len(ks) == 1 else None
 
 
+def zero_test_param(c, pol):
+    """(c == pol) says that a parameter is zero -> its decl id, else None   (`p == 0`, `!(p != 0)`, `!(p > 0)`, `!p` ...)"""
+    c = strip_cast(c)
+    if c is None:
+        return None
+    if c.get("k") == "Un" and c.get("op") == "!":
+        return zero_test_param(c["e"], not pol)
+    if c.get("k") == "Ref" and c.get("dk") == "param":
+        return c["d"] if not pol else None
+    if c.get("k") == "Bin" and c.get("op") in ("==", "!=", ">", "<"):
+        for a_, b_, op in ((c["lhs"], c["rhs"], c["op"]), (c["rhs"], c["lhs"], {"<": ">", ">": "<"}.get(c["op"], c["op"]))):
+            a0 = strip_cast(a_)
+            while a0 is not None and a0.get("k") in ("Construct", "TempObj") and len(a0.get("a", [])) == 1:
+                a0 = strip_cast(a0["a"][0])
+            if a0 is not None and a0.get("k") == "Ref" and a0.get("dk") == "param" and is_zero(b_):
+                if (op == "==" and pol) or (op in ("!=", ">") and not pol):
+                    return a0["d"]
+    return None
+
+
+def alloc_effect(facts, f, vec, depth=0):
+    """what a constructor / member function does to this->vec: 'never' pushes an array, 'always' (on every path it is taken to) pushes one,
+    ('zero', {params}) pushes one unless one of these parameters is zero (early return on zero, or allocation nested in `if(p != 0)`),
+    'unknown' if the allocation depends on anything else.  Helpers of the same class called on this are followed (their zero parameters
+    are translated to the caller's arguments)."""
+    if depth > 3:
+        return "unknown"
+    pushes = [n for n in f.nodes() if n.get("k") == "MCall" and n.get("n") in ("push_back", "assign", "emplace_back") and this_member(n.get("obj"), (vec,))]
+    helpers = []
+    for n in f.nodes():
+        if n.get("k") == "MCall" and (n.get("obj") is None or strip_cast(n["obj"]).get("k") == "This") and not n.get("cconst"):
+            g = norm_c05.callee_function(facts, n)
+            if g is not None and g is not f and g.cls == f.cls:
+                e = alloc_effect(facts, g, vec, depth + 1)
+                if e != "never":
+                    helpers.append((n, g, e))
+    if not pushes and not helpers:
+        return "never"
+    par = parent_map(f)
+    zero = set()
+    for site, eff in [(p_, "always") for p_ in pushes] + [(n, e) for n, g, e in helpers]:
+        if eff == "unknown":
+            return "unknown"
+        if isinstance(eff, tuple):
+            # zero parameters of the helper in terms of this function's parameters
+            n, g = [(n_, g_) for n_, g_, e_ in helpers if n_ is site][0]
+            for zp in eff[1]:
+                idx = [i for i, p_ in enumerate(g.params) if p_["d"] == zp]
+                if not idx or idx[0] >= len(n.get("a", [])):
+                    return "unknown"
+                a0 = strip_cast(n["a"][idx[0]])
+                if a0.get("k") == "Ref" and a0.get("dk") == "param":
+                    zero.add(a0["d"])
+                else:
+                    return "unknown"
+        # conditions the site is nested in / early returns in front of it
+        x = site
+        while id(x) in par:
+            p = par[id(x)]
+            if p.get("k") == "If" and not any(y is site for y in walk(p.get("c"))):
+                in_then = p.get("then") is not None and any(y is site for y in walk(p["then"]))
+                zp = zero_test_param(p["c"], not in_then)      # the site is skipped when the condition has the other value
+                if zp is None:
+                    return "unknown"
+                zero.add(zp)
+            elif p.get("k") in ("For", "While", "Do", "ForRange", "Switch", "Try", "Cond"):
+                return "unknown"
+            x = p
+        for s_ in stmts_of(f.body):
+            if any(y is site for y in walk(s_)):
+                break
+            if s_.get("k") == "If" and s_.get("else") is None and norm_c05._terminates(stmts_of(s_.get("then"))) and any(x_.get("k") == "Return" for x_ in walk(s_.get("then"))):
+                zp = zero_test_param(s_["c"], True)
+                if zp is None:
+                    if any(is_call(x_) and x_.get("noreturn") for x_ in walk(s_.get("then"))):
+                        continue
+                    return "unknown"
+                zero.add(zp)
+    return ("zero", zero) if zero else "always"
+
+
 def unallocated_states(facts, cls, vec):
     """constructors of cls with a path that never pushes to `vec`: -> [(ctor, {scalar slot -> 'zero'|'param'|'other'}, parameter names)].
     Slot 0 is the argument of the Container base initialiser, slot k the k-th `_scalar_index.push_back`.  A push that is preceded
@@ -4989,23 +5247,13 @@ def unallocated_states(facts, cls, vec):
             continue
         if any(n.get("k") in ("Construct",) and strip_targs(n.get("ccls") or "") == strip_targs(cls) for i_ in (f.d.get("inits") or []) for n in walk(i_.get("init"))):
             continue   # delegating constructor
-        zero_params = set()
-        pushes = [n for n in f.nodes() if n.get("k") == "MCall" and n.get("n") in ("push_back", "assign", "emplace_back") and this_member(n.get("obj"), (vec,))]
-        if pushes:
-            # only the early-return-on-zero idiom leaves the arrays unallocated
-            early = None
-            for s_ in stmts_of(f.body):
-                if any(p_ is x for p_ in pushes for x in walk(s_)):
-                    break
-                if s_.get("k") == "If" and any(x.get("k") == "Return" for x in stmts_of(s_.get("then"))):
-                    c = strip_cast(s_["c"])
-                    if c.get("k") == "Bin" and c.get("op") == "==":
-                        for a_, b_ in ((c["lhs"], c["rhs"]), (c["rhs"], c["lhs"])):
-                            if strip_cast(a_).get("dk") == "param" and is_zero(b_):
-                                early = strip_cast(a_)["d"]
-            if early is None:
-                continue
-            zero_params.add(early)
+        eff = alloc_effect(facts, f, vec)
+        if eff == "unknown":
+            out.append((f, None, [p["n"] for p in f.params]))
+            continue
+        if eff == "always":
+            continue
+        zero_params = set(eff[1]) if isinstance(eff, tuple) else set()
 
         def source(a):
             refs = [x for x in walk(a) if x.get("k") == "Ref" and x.get("dk") == "param"]
@@ -5057,6 +5305,9 @@ class FreeState:
             if slot is None or not self.states:
                 return False
             for c_, slots, pn in self.states:
+                if slots is None:
+                    self.witness = (c_, pn, n.get("n"), "unknown")
+                    return False
                 if slots.get(slot) != "zero":
                     self.witness = (c_, pn, n.get("n"), slots.get(slot))
                     return False
